@@ -1,0 +1,41 @@
+//go:build verif
+
+package postgresql
+
+import (
+	"fmt"
+	"strings"
+)
+
+// Add-only accessor for the verification harness (built only with -tags verif).
+
+// VerifPendingEntries describes the queued query packets, head first, one string per entry:
+//
+//	"Q|<sql>"                                               simple query
+//	"X|<statement name>|<portal>|<max rows>|<f,f,..>|<sql>" Execute (result format codes of its Bind packet)
+//
+// <sql> is what handleQueryDataPacket would use for a data row that meets this entry (GetSQLQuery).
+func (p *PgProtocolState) VerifPendingEntries() []string {
+	p.pendingQueryPackets.mutex.RLock()
+	defer p.pendingQueryPackets.mutex.RUnlock()
+	var out []string
+	for _, l := range p.pendingQueryPackets.lists {
+		for e := l.Front(); e != nil; e = e.Next() {
+			q, ok := e.Value.(queryPacket)
+			if !ok {
+				continue
+			}
+			if q.executePacket == nil {
+				out = append(out, "Q|"+q.GetSQLQuery())
+				continue
+			}
+			var fs []string
+			for _, f := range q.bindPacket.resultFormats {
+				fs = append(fs, fmt.Sprint(f))
+			}
+			out = append(out, fmt.Sprintf("X|%s|%s|%d|%s|%s", q.preparedStatement.name, q.bindPacket.PortalName(),
+				q.executePacket.maxRows, strings.Join(fs, ","), q.GetSQLQuery()))
+		}
+	}
+	return out
+}
